@@ -343,8 +343,12 @@ var tmpl = template.Must(template.New("type1").Funcs(template.FuncMap{
 		return x.PS()
 	},
 	"E": writeEncoding,
+	"L": func(s string) string {
+		// keep header comments on a single line
+		return strings.NewReplacer("\n", " ", "\r", " ").Replace(s)
+	},
 }).Parse(`{{define "SectionA" -}}
-%!FontType1-1.1: {{.FontName}} {{.Version}}
+%!FontType1-1.1: {{.FontName}} {{.Version|L}}
 {{if not .CreationDate.IsZero}}%%CreationDate: {{.CreationDate.Format "2006-01-02 15:04:05 -0700 MST"}}
 {{end -}}
 10 dict begin
